@@ -46,7 +46,7 @@ def plan(tier, seed):
         "transitions": ntrans,
         "chunk": 50,
         "rule": (
-            f"E1: BFS over cfg.add(rule) sequences to depth {p['depth']} + sharp grammars (Boolean weights, and free Poly weights for the weight-dependent paths); in every state each normal-form "
+            f"E1: BFS over cfg.add(rule) sequences to depth {p['depth']} + sharp grammars (Boolean weights, free Poly weights for the weight-dependent paths, and - for grammars with repeated rules - real weights whose parallel copies cancel exactly); in every state each normal-form "
             "transformation with every option is applied and its postcondition is decided on the output by own code: CNF shape with start off every rhs; no empty rule except at the start; "
             "no unary rule / no unary cycle (own DFS); arity <= 2; start off every rhs; terminals only in A->a; trim/cotrim: every symbol of every kept rule reachable from the start and generating "
             "IN THE OUTPUT (own least fixed points), empty language => no rules. non-trivial = the input has a useless symbol, an empty rule, a unary rule or a body longer than one"
@@ -165,6 +165,18 @@ def run_case(case):
     orders = [("bool", Boolean, [Boolean.one] * nr, None), ("free", Poly, gram.poly_weights(nr), None)]
     if nr >= 2:
         orders.append(("bool,reversed-rule-order", Boolean, [Boolean.one] * nr, list(range(nr))[::-1]))
+    # real weights of both signs: the k-th copy of a rule that occurs several times gets the sign (-1)^k,
+    # so parallel rules cancel exactly (the summed edge of the unary graph / the summed null weight is 0.0)
+    seen_rule = {}
+    SW = []
+    for hb in rules:
+        k = seen_rule.get(hb, 0)
+        seen_rule[hb] = k + 1
+        SW.append(0.25 * (-1) ** k)
+    if any(v > 1 for v in seen_rule.values()):
+        from genlm.grammar.semiring import Float
+
+        orders.append(("signed floats (duplicates cancel)", Float, SW, None))
     for wname, R, W, order in orders:
         for name, fn, posts in checks(None):
             g = gram.build(rules, R, W, V=V, order=order)
@@ -172,6 +184,11 @@ def run_case(case):
                 out = fn(g)
             except CaseTimeout:
                 raise
+            except (ZeroDivisionError, OverflowError) as e:
+                if wname.startswith("signed"):
+                    continue  # a numerically divergent closure is not a structural matter
+                fails.append(_fail(posts[0][0], dict(inp0, transformation=name, weights=wname), f"EXC {type(e).__name__}: {e}", "grammar"))
+                continue
             except Exception as e:  # noqa: BLE001
                 fails.append(_fail(posts[0][0], dict(inp0, transformation=name, weights=wname), f"EXC {type(e).__name__}: {e}", "grammar"))
                 continue
